@@ -15,7 +15,7 @@ META = dict(
     "statistics are compared with a one-pass computation over all drawn chain states on every feasible path",
     functions=["qucumber/observables/utils.py: _update_statistics", "qucumber/observables/observable.py: ObservableBase.statistics, statistics_from_samples, sample",
                "qucumber/observables/system.py: System.statistics, statistics_from_samples"],
-    bounds=dict(quick="merge: block sizes 0..5 x 1..5, all real sums / sums of squares; schedule: num_samples 1..6, num_chains 0..7, burn_in, steps 0..3, user-provided initial chains (1..3 chains) with overwrite on/off, one and two observables",
+    bounds=dict(quick="merge: block sizes 0..5 x 1..5, all real sums / sums of squares; schedule: num_samples 1..6, num_chains 0..7, burn_in, steps 0..3, user-provided initial chains (1..3 chains) with overwrite on/off, one and two observables, composites incl. a 1e6 offset",
                 thorough="block sizes up to 8, num_samples up to 9, num_chains up to 10"),
     outside=["the Markov chain itself (sample() is a recording stub; see C05)", "floating-point accumulation error (comparison tolerance 1e-9)", "block sizes beyond the bound"],
     stubs=["nn_state.sample -> recording stub returning tagged chain states (honours initial_state / overwrite like the real one)"],
